@@ -83,17 +83,20 @@ var programs = []prog{
 	mkProg("callback", "S:1:R,1,2:2:0:0:0 C:2:R,1,3:3 S:3:R,1,4:4:0:0:0"),
 	mkProg("timeout", "S:1:R,1,2:2:0:0:0 T:2:100:R,1,3:3:0 S:3:R,1,4:4:0:0:0"),
 	mkProg("hooks", "S:1:R,1,2:2:0:0:0 S:2:R,1,3:3:0:0:0 H:3:0 H:4:0 H:5:1 D:0"),
+	mkProg("hooks-cancelled-call", "S:1:R,1,2:2:0:0:0 S:2:R,1,3:3:0:0:0 H:3:1001 H:4:1001 H:5:1002 D:0"),
 	mkProg("flaky", "S:1:F,2,11,R,1,2:2:0:0:0 S:2:F,1,12,R,1,3:3:0:0:0 O:bo=0"),
 	mkProg("twoinst", "S:1:R,1,2:2:0:0:0 S:2:R,1,3:3:0:0:0 O:inst=2"),
 	mkProg("sharded", "S:1:R,1,2:2:2:0:0 S:2:R,1,3:3:0:0:0 H:5:0"),
 	mkProg("limit1", "S:1:R,1,2:2:0:0:0 S:2:R,1,3:3:0:0:0 O:lim=1"),
 	mkProg("backoff", "S:1:F,1,11,R,1,2:2:0:0:0 S:2:R,1,3:3:0:0:0 O:bo=50"),
+	mkProg("backoff-adapter-timeouts", "S:1:R,1,2:2:0:0:0 S:2:R,1,3:3:0:0:0 H:5:0 O:bo=50,dl=1"),
 	mkProg("lagged", "S:1:R,1,2:2:0:0:30 S:2:R,1,3:3:0:0:0 H:5:0"),
 	mkProg("lagged2", "S:1:R,1,2:2:0:0:30 S:2:R,1,3:3:0:0:40 O:inst=2"),
 }
 
 var ctlPrograms = []prog{
 	mkProg("ctl-linear", "S:1:R,1,2:2:0:0:0 C:2:R,1,3:3 S:3:R,1,4:4:0:0:0 H:3:0 H:4:0 H:5:0 D:1 O:retry=100"),
+	mkProg("ctl-hooks-cancelled-call", "S:1:R,1,2:2:0:0:0 C:2:R,1,3:3 S:3:R,1,4:4:0:0:0 H:3:1001 H:4:1002 H:5:1001 D:1 O:retry=100"),
 	mkProg("ctl-timeout", "S:1:R,1,2:2:0:0:0 T:2:100:R,1,3:3:0 C:2:R,1,3:3 D:0"),
 	mkProg("ctl-two-callbacks", "S:1:R,1,2:2:0:0:0 C:2:B,P,1,X,1:3 C:2:R,1,3:3 S:3:R,1,4:4:0:0:0 H:3:0 H:4:0 D:0"),
 	mkProg("ctl-stepctl", "S:1:B,P,1,X,1:2:0:0:0 S:2:R,1,3:3:0:0:0 H:3:0 H:4:0 D:1 O:retry=100,stamp=1"),
@@ -726,6 +729,31 @@ func genSchedule(p *params, emit func(string, bool)) {
 				}
 				emit(scenario(pr, ops), true)
 			}
+		}
+	}
+	// role losses while the scheduler waits for its tick, on a record store that ignores context cancellation (like the
+	// bundled memrecordstore): an interrupted wait must not look like a tick. Only the parked schedulers lose their role
+	// here and there are no adapter faults, so the repaired engine makes no store call after a lost role.
+	for _, sp := range specs[:3] {
+		pr := mkProg("sched-blind", fmt.Sprintf("S:1:R,1,2:2:0:0:0 Z:5:%d:9:0 Z:6:%d:3:0 O:blind=1", sp.id, sp.id))
+		round := func() []string { return append(pr.round(), "st:1/c5", "st:1/c6") }
+		for i := 0; i < p.pick(12, 150); i++ {
+			ops := []string{"sched:1:5", "sched:1:6"}
+			ops = append(ops, round()...)
+			for j := 0; j < 4+r.Intn(6); j++ {
+				switch r.Intn(5) {
+				case 0:
+					ops = append(ops, fmt.Sprintf("adv:%d", []int64{1, sp.period - 1, sp.period, 20}[r.Intn(4)]*sec))
+				case 1, 2:
+					ops = append(ops, fmt.Sprintf("lose:1/c%d", 5+r.Intn(2)))
+					ops = append(ops, round()...)
+				default:
+					ops = append(ops, round()...)
+				}
+			}
+			ops = append(ops, round()...)
+			ops = append(ops, round()...)
+			emit(scenario(pr, ops), true)
 		}
 	}
 	// an invalid cron specification is rejected at once and starts nothing
